@@ -24,6 +24,7 @@ def tables : List (String → List String → Option String) := []
   ++ [Drv.TableApi.specTable]
   ++ [Drv.T2Db.table]
   ++ [Drv.pureTable]
+  ++ [Drv.Lib2.table]
 
 /-- Stateful groups, selected by a first line `#mode <name>`. -/
 def modes : List Mode := []
@@ -39,6 +40,7 @@ def modes : List Mode := []
   ++ [Drv.T2Db.mode]
   ++ Drv.C15.modes
   ++ [Drv.Lib1.mode, Drv.Lib1.oracle]
+  ++ [Drv.Lib2.mode]
 
 def dispatch (line : String) : String :=
   match tokens line with
